@@ -112,6 +112,20 @@ import numpy as np
 '''
 
 
+REPLAY_FOOTER = '''
+if __name__ == '__main__':
+    try:
+        main()
+    except SystemExit:
+        raise
+    except BaseException:
+        import traceback
+        traceback.print_exc()
+        sys.exit(3)   # replay harness problem, not a verdict
+    sys.exit(0)
+'''
+
+
 def write_replay(path, body, env=None, timeout=900):
     """Write a replay script and run it in a fresh interpreter.  Returns (reproduced, detail)."""
     os.makedirs(os.path.dirname(path), exist_ok=True)
@@ -119,7 +133,10 @@ def write_replay(path, body, env=None, timeout=900):
         f.write(REPLAY_HEADER)
         if env:
             f.write('# environment used: ' + json.dumps(env) + '\n')
-        f.write(body)
+        f.write('def main():\n')
+        for ln in body.splitlines():
+            f.write(('    ' + ln).rstrip() + '\n')
+        f.write(REPLAY_FOOTER)
     rc, out = harness.run_replay_script(path, timeout=timeout, env=env)
     if rc == 1:
         return True, out
